@@ -1,5 +1,5 @@
 import XrsVerif.Proofs.ViewshedSweep
-import XrsVerif.Proofs.ViewshedDelete
+import XrsVerif.Proofs.ViewshedDelExact
 import XrsVerif.Proofs.ViewshedOutput
 import XrsVerif.Gen.ViewshedFacts
 import Mathlib.Tactic.Positivity
@@ -20,21 +20,30 @@ import Mathlib.Tactic.Positivity
 
   What is proved, and what is not:
     * `query_decides`            the two-phase tree query decides exactly `visL` on every tree with ordered
-                                 keys whose stored maxima never overestimate (`AugLe`);
-    * `sweep_refines(_along)`    hence the sweep run with the tree reports the same visible cells as the
+                                 keys whose stored maxima below the root never overestimate (`AugLeQ`; the
+                                 root's own maximum is never read);
+    * `sweep_refines`, `sweep_refines_of_checked_run`
+                                 hence the sweep run with the tree reports the same visible cells as the
                                  sweep run with the list, provided every reached tree state is related
-                                 to the list state (`Rel`: BST, AugLe, same nodes);
+                                 to the list state (`Rel`: BST, AugLeQ, same nodes);
     * `rotate_preserves`, `fixups_preserve`, `leaf_insert_preserves`
                                  rotations (with the code's augmentation repair), recolourings and the
                                  insertion with its upward propagation preserve `Rel`, for all trees;
-    * `delete_preserves_partial` the deletion (splice / successor copy) followed by any fixup preserves the
-                                 key order and removes exactly the node asked for.  It does NOT in general
-                                 preserve `AugLe`: `delete_can_overestimate` exhibits a tree, satisfying
-                                 every invariant, on which the code's augmentation repairs leave a stored
-                                 maximum above the true one (gradient ties are needed).  So "`Rel` holds in
-                                 every reachable state" is NOT a theorem; it is checked after every operation
-                                 of every generated run (seam 1 of the correspondence), and a run on which it
-                                 fails is reported by the check.
+    * `delete_preserves_of_no_tie`
+                                 the deletion (splice / successor copy with the loops L1 / L2 and the
+                                 recomputations of the code) followed by any fixup preserves `Rel` and keeps the
+                                 stored maxima EXACT whenever no two nodes of the tree tie in their minimum
+                                 gradient; with `leaf_insert_exact` and `fixups_preserve_exact`, "`Rel` holds in
+                                 every reachable state" is a theorem for tie-free sweeps (`tie_free_run_related`);
+    * `delete_preserves_partial` with ties: the deletion still preserves the key order and removes exactly the
+                                 node asked for, but it does NOT in general preserve "no overestimate":
+                                 `delete_can_overestimate` exhibits a tree, satisfying every invariant, on which
+                                 the code's augmentation repairs leave a stored maximum above the true one.  So
+                                 for sweeps with gradient ties (plateaus) "`Rel` holds in every reachable state"
+                                 is NOT a theorem; it is monitored after every operation of every generated run
+                                 (seam 1 of the correspondence).  In the real sweeps found so far the
+                                 overestimate sits at the root, whose maximum the query never reads (`AugLeQ`
+                                 still holds, so `query_decides` still applies).
     * the output rule            observer 180, invisible -1, visible = the vertical angle, which lies in
                                  (0, 180) and is 90 exactly for a level target, over hypotheses on `atan`.
 -/
@@ -48,11 +57,11 @@ variable {α : Type} [Field α] [LinearOrder α] [IsStrictOrderedRing α]
 /-! ### 1. the query -/
 
 /-- **The status-tree query decides line of sight.**  `t`: any tree with strictly ordered keys whose
-    stored maxima never overestimate; `K` a key of the tree; every node nearer than `K` spans the
+    stored maxima below the root never overestimate (`AugLe` implies it); `K` a key of the tree; every node nearer than `K` spans the
     bearing (or has a minimum gradient ≤ `g`, which is how the permanent sentinel node is exempted).
     Then the caller's test `max <= gradient` holds iff no nearer node spanning the bearing has a
     greater interpolated gradient. -/
-theorem query_decides {S : α} {t : Viewshed.Tree α} (K ang g : α) (hS : S ≤ g) (hb : BST t) (ha : AugLe S t)
+theorem query_decides {S : α} {t : Viewshed.Tree α} (K ang g : α) (hS : S ≤ g) (hb : BST t) (ha : AugLeQ S t)
     (hK : ∃ n ∈ t.toList, n.key = K)
     (hact : ∀ n ∈ t.toList, n.key < K → spans n ang = true ∨ minv n ≤ g) :
     query S t K ang g ≤ g ↔ ∀ n ∈ t.toList, n.key < K → spans n ang = true → itp n ang ≤ g :=
@@ -65,10 +74,10 @@ example :
     let n2 : Node ℚ := ⟨2, 1, 1, 1, 0, 1, 2⟩
     let n3 : Node ℚ := ⟨3, 0, 0, 0, 0, 1, 2⟩
     let t : Viewshed.Tree ℚ := .node (.node .nil n1 2 true .nil) n2 1 false (.node .nil n3 0 true .nil)
-    BST t ∧ AugLe (-5) t ∧ ¬ Exact (-5) t ∧ query (-5) t 3 1 0 = 2 ∧ visL t.toList 3 1 0 = false := by
+    BST t ∧ AugLeQ (-5) t ∧ ¬ Exact (-5) t ∧ query (-5) t 3 1 0 = 2 ∧ visL t.toList 3 1 0 = false := by
   refine ⟨?_, ?_, ?_, ?_, ?_⟩
   · rw [← bstB_iff]; decide
-  · rw [← augLeB_iff]; decide
+  · rw [← augLeQB_iff]; decide
   · rw [← exactB_iff]; decide
   · decide
   · decide
@@ -117,7 +126,7 @@ theorem sweep_refines_of_checked_run {S : α} {d : Node α} (O : TreeOps α)
 example : Rel (-100 : ℚ) (dummy (-100) 0 (-1)) (initTree (-100) 0 (-1)) [] := by
   refine ⟨?_, ?_, ?_⟩
   · rw [← bstB_iff]; decide
-  · rw [← augLeB_iff]; decide
+  · rw [← augLeQB_iff]; decide
   · intro n; simp [initTree, Tree.toList]
 
 example :
@@ -167,7 +176,12 @@ theorem rotate_preserves (S : α) (p : List Dir) {t : Viewshed.Tree α} :
     see `fixups_only_recolour_and_rotate`) preserves the relation to the abstract set -/
 theorem fixups_preserve {S : α} {d : Node α} {t u : Viewshed.Tree α} {st : List (Node α)}
     (h : Rebal S t u) (hr : Rel S d t st) : Rel S d u st :=
-  ⟨h.bst hr.1, h.augLe hr.2.1, fun n => by rw [h.toList]; exact hr.2.2 n⟩
+  ⟨h.bst hr.1, h.augLeQ hr.2.1, fun n => by rw [h.toList]; exact hr.2.2 n⟩
+
+/-- ... and exactness and "no overestimate anywhere" -/
+theorem fixups_preserve_exact {S : α} {t u : Viewshed.Tree α} (h : Rebal S t u) :
+    (Exact S t → Exact S u) ∧ (AugLe S t → AugLe S u) :=
+  ⟨h.exact, h.augLe⟩
 
 /-- `_insert_into_tree`: descent, new red leaf, upward propagation of its minimum gradient (which never
     overestimates), then any fixup: the relation is preserved and the new cell joins the active set -/
@@ -175,7 +189,7 @@ theorem leaf_insert_preserves {S : α} {d : Node α} {t u : Viewshed.Tree α} {s
     (hr : Rel S d t st) (hd : n.key ≠ d.key) (hfresh : ∀ m ∈ st, m.key ≠ n.key)
     (hu : Rebal S (leafInsert n t) u) : Rel S d u (n :: st) := by
   obtain ⟨hb, ha, hm⟩ := hr
-  refine fixups_preserve hu ⟨?_, insCore_AugLe S n ha, fun a => ?_⟩
+  refine fixups_preserve hu ⟨?_, insCore_AugLeQ S n ha, fun a => ?_⟩
   · refine insCore_BST n hb (fun m hm' => ?_)
     rcases (hm m).mp hm' with rfl | hm'
     · exact fun h => hd h.symm
@@ -188,6 +202,100 @@ theorem leaf_insert_preserves {S : α} {d : Node α} {t u : Viewshed.Tree α} {s
 theorem leaf_insert_exact {S : α} {t : Viewshed.Tree α} (n : Node α) (h : Exact S t) (hS : S ≤ minv n) :
     Exact S (leafInsert n t) :=
   (insCore_Exact_aux S n h hS).1
+
+/-- **`_delete_from_tree` without gradient ties.**  If the stored maxima are exact, no two nodes of the
+    tree have the same minimum gradient and only nodes nearer than the deleted one carry the sentinel
+    (the dummy), then the splice / successor copy with the code's augmentation repairs (loops L1, L2,
+    recomputations F1, C), followed by any fixup, leaves a tree that is again exact, ordered, and holds
+    exactly the remaining nodes. -/
+theorem delete_preserves_of_no_tie {S : α} {d : Node α} {t : Viewshed.Tree α} {st : List (Node α)} (k : α)
+    (hr : Rel S d t st) (he : Exact S t) (hk : ∃ n ∈ st, n.key = k) (hd : d.key ≠ k)
+    (hnotie : ∀ a ∈ t.toList, ∀ b ∈ t.toList, minv a = minv b → a.key = b.key)
+    (hsent : ∀ n ∈ t.toList, minv n = S → n.key < k) :
+    ∃ c, delCore S k t = some c ∧ ∀ u, Rebal S c u →
+      Exact S u ∧ Rel S d u (st.filter fun m => !(eqv m.key k)) := by
+  obtain ⟨hb, ha, hm⟩ := hr
+  obtain ⟨kn, hkn, hkk⟩ := hk
+  have hsome := del_isSome S k ⟨kn, (hm kn).mpr (Or.inr hkn), hkk⟩ hb
+  obtain ⟨res, hres⟩ := Option.isSome_iff_exists.mp hsome
+  have hc : delCore S k t = some (if res.atY then refresh S res.t else res.t) := by simp [delCore, hres]
+  refine ⟨_, hc, fun u hu => ?_⟩
+  obtain ⟨hb', hm'⟩ := delCore_spec S k hc hb
+  have hex := delCore_exact S k hc ⟨hb, he, hnotie, hsent⟩
+  refine ⟨hu.exact hex, hu.bst hb', (hu.exact hex).augLe.toQ, fun n => ?_⟩
+  rw [hu.toList, hm', hm, List.mem_filter]
+  simp only [Bool.not_eq_eq_eq_not, Bool.not_true, ← Bool.not_eq_true, eqv_iff]
+  constructor
+  · rintro ⟨rfl | h, hne⟩
+    · exact Or.inl rfl
+    · exact Or.inr ⟨h, hne⟩
+  · rintro (rfl | ⟨h, hne⟩)
+    · exact ⟨Or.inl rfl, hd⟩
+    · exact ⟨Or.inr h, hne⟩
+
+/-- non-vacuity: a four-node tree with pairwise different minimum gradients, exact maxima, key 2 with two
+    children (successor copy) -- the hypotheses hold and the result is exact -/
+example :
+    let f : ℤ → ℤ → Node ℤ := fun k v => ⟨k, v, v, v, 0, 1, 2⟩
+    let t : Viewshed.Tree ℤ := .node (.node .nil (f 0 (-9)) (-9) false .nil) (f 2 1) 5 false
+      (.node (.node .nil (f 3 5) 5 true .nil) (f 4 2) 5 false .nil)
+    BST t ∧ Exact (-9) t ∧ (∀ a ∈ t.toList, ∀ b ∈ t.toList, minv a = minv b → a.key = b.key) ∧
+      (∀ n ∈ t.toList, minv n = -9 → n.key < 2) ∧ ∃ u, delCore (-9) 2 t = some u ∧ Exact (-9) u := by
+  refine ⟨?_, ?_, by decide, by decide, _, rfl, ?_⟩
+  · rw [← bstB_iff]; decide
+  · rw [← exactB_iff]; decide
+  · rw [← exactB_iff]; decide
+
+/-- **For sweeps without gradient ties the relation holds in every reachable state** -- for every
+    implementation that performs the model's insertion / deletion followed by rotations and
+    recolourings (`Impl`, which is what the correspondence observes of the real code). -/
+theorem tie_free_run_related {S : α} {d : Node α} (O : TreeOps α) (hO : Impl S O) :
+    ∀ (ops : List (Op α)) (t : Viewshed.Tree α) (st : List (Node α)),
+      Rel S d t st → Exact S t → OpsOK S d st ops → NoTieOps S d st ops → InvAlong S d O t st ops := by
+  intro ops
+  induction ops with
+  | nil => intro t st hr _ _ _; exact hr
+  | cons op ops ih =>
+    intro t st hr he ho hn
+    obtain ⟨hok, ho'⟩ := ho
+    obtain ⟨hnt, hn'⟩ := hn
+    refine ⟨hr, ?_⟩
+    cases op with
+    | ins n =>
+      have hu := hO.1 n t
+      exact ih _ _ (leaf_insert_preserves n hr hok.1 hok.2 hu) (hu.exact (leaf_insert_exact n he hnt)) ho' hn'
+    | del k =>
+      obtain ⟨hk, hd, hnotie, hsent⟩ := hnt
+      have hmem : ∀ n, n ∈ t.toList → n ∈ d :: st := fun n hn => by
+        rcases (hr.2.2 n).mp hn with rfl | h
+        · exact List.mem_cons_self
+        · exact List.mem_cons_of_mem _ h
+      obtain ⟨c, hc, hall⟩ := delete_preserves_of_no_tie k hr he hk hd
+        (fun a ha b hb => hnotie a (hmem a ha) b (hmem b hb)) (fun n hn => hsent n (hmem n hn))
+      obtain ⟨hex, hrel⟩ := hall _ (hO.2 k t c hc)
+      exact ih _ _ hrel hex ho' hn'
+    | qry k ang g => exact ih _ _ hr he ho' hn'
+
+/-- hence, for tie-free sweeps, the run with the real structure reports exactly the line-of-sight rule -/
+theorem tie_free_sweep_correct {S : α} {d : Node α} (O : TreeOps α) (hO : Impl S O)
+    (ops : List (Op α)) (t : Viewshed.Tree α) (st : List (Node α))
+    (hr : Rel S d t st) (he : Exact S t) (ho : OpsOK S d st ops) (hn : NoTieOps S d st ops) :
+    runT S O t ops = runL st ops :=
+  sweep_refines_along O ops t st (tie_free_run_related O hO ops t st hr he ho hn) ho
+
+/-- non-vacuity: the model's own operations (no rebalancing at all) are such an implementation, and the
+    two-cell run above is tie-free -/
+example (S : α) : Impl S (coreOps S) :=
+  ⟨fun n t => Rebal.refl _, fun k t c h => by simp only [coreOps, h, Option.getD_some]; exact Rebal.refl _⟩
+
+example :
+    let a : Node ℚ := ⟨1, 1, 1, 1, -1, 0, 1⟩
+    let b : Node ℚ := ⟨4, 0, 0, 0, -1, 0, 1⟩
+    NoTieOps (-100 : ℚ) (dummy (-100) 0 (-1)) [] [.ins a, .ins b, .qry 4 0 0, .del 1, .qry 4 (1/2) 0] := by
+  simp only [NoTieOps, stepL, dummy]
+  refine ⟨by decide +kernel, by decide +kernel, trivial, ⟨⟨⟨1, 1, 1, 1, -1, 0, 1⟩, by decide +kernel, rfl⟩, by norm_num, ?_, ?_⟩, trivial, trivial⟩
+  · decide +kernel
+  · decide +kernel
 
 /-- `_delete_from_tree` (PARTIAL: everything except "no overestimate").  The splice / successor copy,
     with whatever the augmentation repairs store, followed by any fixup: the key is found, the keys stay
